@@ -162,11 +162,12 @@ static int encode_special_opd(struct instr *instrc, int m, int i) {
         instrc->hex.rex |= rex_w;
       reg_r++;
     }
+    // (get_reg may turn a lone index register into the base register)
+    FAIL_IF(get_reg(instrc, &instrc->opd[m], reg_r));
     if (instrc->opd[m].reg & REG_RB)
       instrc->hex.rex |= rex_ + rex_b;
     if (instrc->opd[m].index & REG_RB)
       instrc->hex.rex |= rex_ + rex_x;
-    FAIL_IF(get_reg(instrc, &instrc->opd[m], reg_r));
     // with a SIB byte the r/m field is 0b100, not the base register
     instrc->rd_offset =
         instrc->is_sib ? spl : (instrc->opd[m].reg & VALUE_MASK);
